@@ -36,6 +36,9 @@ type apiOp struct {
 type apiCase struct {
 	Memstore uint64  `json:"memstore"`
 	Ops      []apiOp `json:"ops"`
+	// fault arm: the FaultAt-th write system call on a WAL file fails (EIO, or a short write of Short bytes); -1 = none
+	FaultAt int `json:"fault_at"`
+	Short   int `json:"short,omitempty"`
 }
 
 var apiKeys = []string{"", "a", "b", "k\xff\xfe\x00z", "a\x00", strings.Repeat("K", 3000), "ab"}
@@ -55,7 +58,7 @@ func apiValue(kind, id int) string {
 }
 
 func apiGen(r *rand.Rand, thorough bool) apiCase {
-	c := apiCase{Memstore: pick(r, uint64(1), 32, 64, 200, 1<<20)}
+	c := apiCase{Memstore: pick(r, uint64(1), 32, 64, 200, 1<<20), FaultAt: -1}
 	n := 4 + r.Intn(14)
 	if thorough {
 		n = 6 + r.Intn(40)
@@ -114,7 +117,137 @@ func apiOpen(dir string, mem uint64) (*simpledb.DB, error) {
 	return db, nil
 }
 
+// runAPIFaultCase: one database, one injected write failure on the WAL. Every call that returns an error must be a
+// no-op: directly, and after the process is gone and the directory is recovered.
+func runAPIFaultCase(c *Ctx, ac apiCase, tape *simrt.Tape) (vs []apiViolation, evals int, fired int) {
+	dir := freshDir(c, "apiF")
+	defer os.RemoveAll(dir)
+	add := func(sig, detail string) { vs = append(vs, apiViolation{sig, detail}) }
+	w := simrt.NewWorld(dir, tape)
+	w.Record = false
+	defer simrt.Deactivate()
+	defer w.ReleaseAll()
+	model := map[string]string{}
+	closed := false
+	bad := false
+	_, serr, stopped := runInBubble(c.T, w, schedKnobs{WClient: 2, WFlusher: 2, WCompactor: 1}, func() {
+		db, err := apiOpen(dir, ac.Memstore)
+		if err != nil {
+			add("open-error|"+normErr(err), err.Error())
+			bad = true
+			return
+		}
+		// arm the fault only after Open: the property is about calls on an open database
+		w.FaultFilter = func(p simrt.OpPoint) bool { return p.Kind == "write" && strings.HasPrefix(p.Rel, "wal/") }
+		w.FaultAt = map[int]simrt.FaultSpec{ac.FaultAt: {Errno: "EIO", Short: ac.Short}}
+		sweep := func(when string) bool {
+			for _, k := range apiKeys {
+				if k == "" {
+					continue
+				}
+				v, e := db.GetBytes([]byte(k))
+				evals++
+				want, ok := model[k]
+				if errClass(e) == "error" {
+					add("get-error|"+normErr(e), fmt.Sprintf("%s: GetBytes(%q) failed: %v", when, head([]byte(k)), e))
+					return false
+				}
+				if (e == nil) != ok || (ok && string(v) != want) {
+					add("failed-call-had-an-effect|"+when, fmt.Sprintf("%s: GetBytes(%q) = (%q, %s), reference map (calls that returned an error are no-ops) says (%q, present=%v)", when, head([]byte(k)), head(v), errClass(e), head([]byte(want)), ok))
+					return false
+				}
+			}
+			return true
+		}
+		for i, op := range ac.Ops {
+			k := apiKeys[op.Key]
+			if k == "" {
+				continue
+			}
+			var e error
+			what := ""
+			switch op.Kind {
+			case "put":
+				v := apiValue(max(op.Val, 1), i)
+				if i%2 == 0 {
+					e = db.Put(k, v)
+				} else {
+					e = db.PutBytes([]byte(k), []byte(v))
+				}
+				if e == nil {
+					model[k] = v
+				}
+				what = "put"
+			case "del":
+				if i%2 == 0 {
+					e = db.Delete(k)
+				} else {
+					e = db.DeleteBytes([]byte(k))
+				}
+				if e == nil {
+					delete(model, k)
+				}
+				what = "delete"
+			default:
+				continue
+			}
+			evals++
+			if e != nil && w.FaultsFired["write:EIO"] == 0 {
+				add("api-error|"+what+":"+normErr(e), fmt.Sprintf("op %d %s(%q) failed although no fault had been injected yet: %v", i, what, head([]byte(k)), e))
+				bad = true
+				return
+			}
+			after := "directly-after-successful-call"
+			if e != nil {
+				after = "directly-after-failed-" + what
+			}
+			if !sweep(after) {
+				bad = true
+				return
+			}
+		}
+		if err := db.Close(); err == nil {
+			closed = true
+		}
+	})
+	fired = w.FaultsFired["write:EIO"]
+	if len(stopped) > 0 && fired == 0 {
+		add("process-stopped|"+normErr(errors.New(firstLine(stopped[0]))), stopped[0])
+		return
+	}
+	if serr != nil && fired == 0 {
+		add("liveness|"+serr.Error(), serr.Error())
+		return
+	}
+	if bad {
+		return
+	}
+	_ = closed
+	simrt.Deactivate()
+	w.ReleaseAll()
+	// the process is gone (cleanly closed or not): recover the directory as it is
+	rec := recoverDir(dir, dbOpts{Memstore: ac.Memstore, Threshold: 10, MaxSize: 1 << 30, Ratio: 1, WriteBuf: 4096, ReadBuf: 4096, Compactions: true}, apiKeys[1:], simrt.NewTape(7), false)
+	evals++
+	if rec.openErr != nil {
+		add("open-error-after-failed-call|"+normErr(rec.openErr), fmt.Sprintf("re-opening after a call failed with an injected WAL write error: %v", rec.openErr))
+		return
+	}
+	for _, k := range apiKeys[1:] {
+		want, ok := model[k]
+		got, gok := rec.state[k]
+		if ok != gok || want != got {
+			add("failed-call-had-an-effect|after-recovery", fmt.Sprintf("after recovery key %q reads (%q, found=%v), reference map says (%q, present=%v)", head([]byte(k)), head([]byte(got)), gok, head([]byte(want)), ok))
+			return
+		}
+	}
+	return
+}
+
 func runAPICase(c *Ctx, ac apiCase, tape *simrt.Tape, count bool) (vs []apiViolation, evals int, imgs []string) {
+	if ac.FaultAt >= 0 {
+		v, e, _ := runAPIFaultCase(c, ac, tape)
+		return v, e, nil
+	}
 	dirS := freshDir(c, "apiS") // string flavour
 	dirB := freshDir(c, "apiB") // byte flavour (recorded: crash images are taken here)
 	defer os.RemoveAll(dirS)
@@ -342,6 +475,12 @@ func apisimMain(c *Ctx) {
 		seed := c.RunSeed(i)
 		r := rand.New(rand.NewSource(seed))
 		ac := apiGen(r, c.Thorough())
+		if c.Mode == "fault" {
+			ac.FaultAt = r.Intn(2 * len(ac.Ops))
+			if r.Intn(3) == 0 {
+				ac.Short = 1 + r.Intn(20)
+			}
+		}
 		vs, evals, imgs := runAPICase(c, ac, simrt.NewTape(seed), true)
 		c.Res.Runs++
 		c.Res.Evaluations += evals
